@@ -318,6 +318,12 @@ def check_world(w, v, res, hist):
         res.transitions += 2
         res.events["object-pointer"] += 1
         try:
+            if k != "U":
+                # the same object passed as a view rebuilt from (buffer, offset)
+                hv = type(h)._from_buffer(h._buffer, h._offset)
+                av = getattr(K, "addr_" + k)(obj=hv)
+                if int(av) != base + int(h._offset):
+                    v.bad("C17.object-pointer", "view-not-current-location", "view of object %d (%s): kernel received %#x, expected %#x" % (i, k, int(av), base + int(h._offset)), kind=k, history=hist)
             addr = getattr(K, "addr_" + k)(obj=h)
             if int(addr) != base + int(h._offset):
                 v.bad("C17.object-pointer", "not-current-location", "object %d (%s) at offset %d: kernel received %#x, storage base %#x" % (i, k, int(h._offset), int(addr), base), kind=k, history=hist)
